@@ -177,7 +177,9 @@ CLAIMED = {
          "formatter produce fixed-width fields with mm,ss<60 that an independent reader maps back to the instant truncated to milliseconds (format_denotes, "
          "vtt_timestamp_denotes, vtt_hours_omitted_iff, fields_in_range: all carries, proved with omega); the SAMI writer's sync planning state machine for one "
          "language equals 'blank sync at the previous end ms unless the cue starts there, then the cue's sync, nothing after the last' for every cue list "
-         "(sami_sync_plan, induction over the cue list with the last_time state). Executable models of the SRT and MicroDVD writers (whole document), the stamp "
+         "(sami_sync_plan, induction over the cue list with the last_time state), and for ANY number of languages and any cues the paragraphs of the written "
+         "document with the start of their block are, as a multiset, exactly the per-language plans - nothing else is written, nothing is lost "
+         "(sami_plan_entries, permutation invariant through block lookup / insertion / appending). Executable models of the SRT and MicroDVD writers (whole document), the stamp "
          "formatters, the MicroDVD frame truncation and the multi-language SAMI sync plan are compared with all seven writers' outputs, whose timing is also "
          "extracted by independent parsers and compared with the property's denotation."),
    ref="§3 C02", technique="Lean 4 proof (omega over div/mod carries; induction over the cue list) + differential correspondence on writer output",
